@@ -82,6 +82,8 @@ Definition check_feed (sel : N) (w : wcase) (cs : list int * (list (list int) * 
       else if want 13 && N.eqb cls 6 && (effect || (65536 <? ni consumed)) then mkV 305 0
       else if want 9 && N.eqb cls 11 && effect then mkV 318 0
       else if want 13 && N.eqb cls 11 && effect then mkV 340 0
+      (* class 12: a 256 MiB bomb; [consumed] = MiB allocated while the receiver handled it (cap: 40 MiB) *)
+      else if want 13 && N.eqb cls 12 && (effect || (240 <? ni consumed)%N) then mkV 341 0
       else if want 13 && N.eqb cls 4 && effect && negb (bi effok) then mkV 303 0
       else
         (* model: when the encrypted layer does not yield a message there must be no effect *)
